@@ -103,16 +103,24 @@ def _fold_axis(opname, a, axis, keepdims):
 
 
 def _matmul(a, b):
+    """numpy.matmul semantics on object arrays (1-d promotion, broadcast batch dims)"""
     a2 = a.reshape((1,) + a.shape) if a.ndim == 1 else a
     b2 = b.reshape(b.shape + (1,)) if b.ndim == 1 else b
-    if a2.ndim != 2 or b2.ndim != 2 or a2.shape[1] != b2.shape[0]:
+    if a2.ndim < 2 or b2.ndim < 2 or a2.shape[-1] != b2.shape[-2]:
         raise OracleUndefined("matmul shapes")
-    out = np.empty((a2.shape[0], b2.shape[1]), dtype=object)
-    for i in range(a2.shape[0]):
-        for j in range(b2.shape[1]):
-            out[i, j] = C.fold("add", [a2[i, k] * b2[k, j] for k in range(a2.shape[1])])
+    try:
+        batch = np.broadcast_shapes(a2.shape[:-2], b2.shape[:-2])
+    except ValueError:
+        raise OracleUndefined("matmul batch shapes")
+    ab = np.broadcast_to(a2, batch + a2.shape[-2:])
+    bb = np.broadcast_to(b2, batch + b2.shape[-2:])
+    out = np.empty(batch + (a2.shape[-2], b2.shape[-1]), dtype=object)
+    for idx in np.ndindex(*batch):
+        for i in range(a2.shape[-2]):
+            for j in range(b2.shape[-1]):
+                out[idx + (i, j)] = C.fold("add", [ab[idx + (i, k)] * bb[idx + (k, j)] for k in range(a2.shape[-1])])
     if a.ndim == 1:
-        out = out[0]
+        out = out[..., 0, :]
     if b.ndim == 1:
         out = out[..., 0]
     return out
